@@ -255,8 +255,14 @@ class Orient:
             if len(e.generators) == 1:
                 src = self.ev(e.generators[0].iter)
                 self.bind_loop(e.generators[0].target, e.generators[0].iter, src)
-                self.ev(e.elt)
-                return src if src.is_bits() else UNK
+                elt = self.ev(e.elt)
+                if src.is_bits():
+                    return src
+                # pieces that each carry an orientation, produced in iteration order (to be joined / concatenated):
+                # like `acc += piece` in a loop, the whole has the orientation of the pieces
+                if elt.is_bits() and src.lay in ("NA",) and not e.generators[0].ifs:
+                    return elt
+                return UNK
             return UNK
         if isinstance(e, ast.Attribute):
             return UNK if e.attr not in ("value",) else NA
